@@ -41,7 +41,10 @@ use crate::sc::{
 };
 #[cfg(feature = "case-resumption")]
 use crate::sc::{GeneralCode, StatusReport};
-use crate::tlv::{get_root_node_struct, FromTLV, OctetStr, TLVElement, TLVTag, TLVWrite, ToTLV};
+use crate::tlv::{
+    get_root_node_struct, get_root_node_struct_exact, FromTLV, OctetStr, TLVElement, TLVTag,
+    TLVWrite, ToTLV,
+};
 use crate::transport::exchange::Exchange;
 use crate::transport::session::{NocCatIds, ReservedSession, SessionMode};
 use crate::utils::init::{init, Init, InitMaybeUninit};
@@ -338,7 +341,12 @@ impl<'a, C: Crypto> CaseResponder<'a, C> {
                 // be reported back to the peer with `INVALID_PARAMETER`
                 // rather than silently abandoning the exchange (TC-SC-3.4
                 // step 5 covers this).
-                let req = match get_root_node_struct(exchange.rx()?.payload()) {
+                // Sigma3 is the last input of the transcript hash the session keys are derived
+                // from, and nothing that follows verifies that hash: every byte of it that is not
+                // covered by the AEAD tag of `TBEData3Encrypted` (a missing or altered
+                // end-of-container, trailing bytes) must be rejected here, or the two peers would
+                // silently end up with different session keys.
+                let req = match get_root_node_struct_exact(exchange.rx()?.payload()) {
                     Ok(req) => req,
                     Err(e) => {
                         error!("Sigma3 outer TLV parse failed: {}", e);
